@@ -195,7 +195,7 @@ PROPS = {
     },
     "C09": {
         "required_theorems": ["c09_sync_within_windows", "c09_sync_wait_input_truthful", "c09_sync_wait_output_truthful",
-                              "c09_sync_progress", "c09_sync_retires", "c09_skip", "c09_rtlsdr"],
+                              "c09_sync_progress", "c09_sync_retires", "c09_skip", "c09_rtlsdr", "c09_fir"],
         "runs": [
             {"sub": "blocks", "quick": ["--seed", "{seed}", "--set", "modelled", "--cases", 800, "--steps", 40, "--tag-heavy", 1],
              "thorough": ["--seed", "{seed}", "--set", "modelled", "--cases", 40000, "--steps", 80, "--tag-heavy", 1]},
@@ -279,7 +279,7 @@ PROPS = {
         "assumptions": ["fft_stream.rs (plain FFT framing) is covered by C08 self-checks only"],
     },
     "C12": {
-        "required_theorems": ["c12_sync_same_index", "c12_sync_any_chunking", "c12_contract_sync", "c12_skip", "c12_delay"],
+        "required_theorems": ["c12_sync_same_index", "c12_sync_any_chunking", "c12_contract_sync", "c12_skip", "c12_delay", "c12_fir"],
         "runs": [
             {"sub": "blocks", "quick": ["--seed", "{seed}", "--set", "modelled", "--cases", 1200, "--steps", 40, "--tag-heavy", 1],
              "thorough": ["--seed", "{seed}", "--set", "modelled", "--cases", 60000, "--steps", 80, "--tag-heavy", 1]},
@@ -319,7 +319,7 @@ PROPS = {
     },
     "C13": {
         "required_theorems": ["c13_table", "c13_crc_is_x25", "c13_crc_gate", "c13_bounds", "c13_abort", "c13_roundtrip",
-                              "c13_frames", "c13_destuff"],
+                              "c13_frames", "c13_destuff", "c13_resync", "c13_after_noise"],
         "runs": [
             {"sub": "hdlc", "quick": ["--seed", "{seed}", "--cases", 2500],
              "thorough": ["--seed", "{seed}", "--cases", 200000], "timeout": 20000},
@@ -436,7 +436,8 @@ PROPS = {
     },
     "C20": {
         "required_theorems": ["c20_chain_1200_as_documented", "c20_chain_9600_as_documented", "c20_nrzi",
-                              "c20_nrzi_any_start", "c20_polarity_irrelevant"],
+                              "c20_nrzi_any_start", "c20_polarity_irrelevant", "c20_digital_1200", "c20_digital_9600",
+                              "c20_descrambler_taps", "c20_descrambler_block"],
         "runs": [
             {"sub": "e2e", "quick": ["--seed", "{seed}", "--cases", 60, "--probes", 1],
              "thorough": ["--seed", "{seed}", "--cases", 6000, "--probes", 1], "timeout": 40000},
@@ -640,11 +641,14 @@ MANIFEST_TEXT = {
                 "within the size limits the transmitter's bits (flags, LSB-first bytes, CRC low byte first, bit stuffing) "
                 "make the deframer deliver exactly that payload once, and any number of frames back to back (shared flags) or "
                 "separated by idle flags deliver exactly the payloads in order (destuffing inverts stuffing on every bit "
-                "string). Noise prefixes, chunking and corruptions are tied by correspondence with an independent encoder.",
+                "string); RESYNCHRONISATION: from every reachable state, i.e. after ANY preceding bits, a flag leaves the "
+                "deframer right after a flag (all 256 search registers by kernel evaluation, every too-long reset point inside "
+                "a flag), hence the frames after arbitrary noise are delivered exactly. Chunking and corruptions are tied by "
+                "correspondence with an independent encoder.",
         "design_ref": "DESIGN.md section 2, C13",
         "note": "Five deframer defects were repaired by fix: commits (len<2 panic, max_size equality, shared-zero flags, flag in "
-                "progress lost at the too-long reset). Not proved: resynchronisation after arbitrary noise, error-detection "
-                "(odd weight, 2-bit) - both by correspondence.",
+                "progress lost at the too-long reset). Not proved: error detection (1-2 bit corruptions rejected, "
+                "single-bit repair) - by correspondence on every single-bit and sampled double-bit corruption.",
         "technique": "Lean 4 proof over a model with translator-generated CRC table + differential correspondence with an independent encoder",
     },
     "C17": {
@@ -698,15 +702,19 @@ MANIFEST_TEXT = {
     "C20": {
         "text": "PARTIAL BY NATURE. Lean 4 theorems for the digital side: the harness copy of both receive chains equals what "
                 "the example sources say now (generated definitions); NRZI decoding inverts NRZI encoding for every bit string "
-                "from any initial level (only the first bit can differ) and is insensitive to a polarity flip; together with "
-                "C10/C13 this is the bit-level pipeline. The analog front end enters as the explicit hypothesis FrontEnd and "
+                "from any initial level (only the first bit can differ) and is insensitive to a polarity flip; the real LFSR "
+                "register model is out[n]=in[n]^in[n-12]^in[n-17], inverts the G3RUH scrambler and forgets its seed after 17 "
+                "bits; COMPOSED (c20_digital_1200/9600): for every preamble, scrambler seed, line level, decoder state and "
+                "every list of payloads within the example's size limits, NRZI decoder -> (descrambler ->) deframer as "
+                "configured in the examples deliver exactly the payloads in order, after at most some garbage produced by the "
+                "preamble. The analog front end enters as the explicit hypothesis FrontEnd and "
                 "is validated, not proved: generated Bell-202 and G3RUH transmissions at all supported sample rates with "
                 "arbitrary phase and symbol timing must be decoded exactly, on both runners.",
         "design_ref": "DESIGN.md section 2, C20",
         "note": "Known finding: the 9600 example as written uses SymbolSync, which slips symbols on clean NRZ data at "
                 "non-integer samples/symbol below about 10.5 (50000/9600 = 5.208); the check uses the ZeroCrossing block for "
                 "the 9600 chain (the property names zero-crossing clock recovery) and keeps the example's variant as a probe. "
-                "The descrambler inversion theorem and the composition with the HDLC round trip are not yet mechanised.",
+                "Not mechanised: the float front end (hypothesis FrontEnd, validated on generated signals).",
         "technique": "Lean 4 proofs for the digital back end over translator-checked chain definitions + end-to-end validation on generated signals",
     },
 }
